@@ -284,7 +284,7 @@ class StridedInterval:
         results = []
 
         if self.stride == 0 and n > 0:
-            results.append(self.lower_bound)
+            results.append(self._unsigned_to_signed(self.lower_bound, self.bits) if signed else self.lower_bound)
         else:
             bounds = self._signed_bounds() if signed else self._unsigned_bounds()
 
@@ -446,18 +446,15 @@ class StridedInterval:
             return [(lb, ub)]
 
         if len(nsplit) == 2:
-            # nsplit[0] is on the left hemisphere, and nsplit[1] is on the right hemisphere
+            # Neither piece crosses the north pole, so each is one run in signed order; the first one may start in
+            # the negative half and run past zero (an interval that also wraps past zero), so both of its bounds are
+            # converted as well
 
-            # The left one
-            lb_1 = nsplit[0].lower_bound
-            ub_1 = nsplit[0].upper_bound
+            lb_1 = self._unsigned_to_signed(nsplit[0].lower_bound, self.bits)
+            ub_1 = self._unsigned_to_signed(nsplit[0].upper_bound, self.bits)
 
-            # The right one
-            lb_2 = nsplit[1].lower_bound
-            ub_2 = nsplit[1].upper_bound
-            # Then convert them to negative numbers
-            lb_2 = self._unsigned_to_signed(lb_2, self.bits)
-            ub_2 = self._unsigned_to_signed(ub_2, self.bits)
+            lb_2 = self._unsigned_to_signed(nsplit[1].lower_bound, self.bits)
+            ub_2 = self._unsigned_to_signed(nsplit[1].upper_bound, self.bits)
 
             return [(lb_1, ub_1), (lb_2, ub_2)]
 
